@@ -13,6 +13,11 @@
 (*               (par = parameter names, kin = their kinds: with / without a default,        *)
 (*               keyword-only; star = *args / **kwargs declared; shape = function, object  *)
 (*               with __call__, functools.partial), in one keyword order                      *)
+(*   useq        a SESSION on one ulist object: hist = the steps <<kind, what>> (call / edit by the owner /  *)
+(*               edit of the previous result), obs = per step what came back and what u and the operand hold *)
+(*               afterwards (Algebra.tla 4a)                                                                   *)
+(*   mses        a SESSION on the caller's mappings d, e, key list K, other mapping O, renaming M              *)
+(*               (Algebra.tla 4b): per step the outcome and ALL objects afterwards                             *)
 (* A mapping is logged as [cls, items] with items the sequence of [key, value] in dict order.  *)
 (* Verdict(o) = "" or the name of the first clause the observation breaks; results are judged  *)
 (* before operands.                                                                            *)
@@ -22,12 +27,56 @@ IsMap(out) == out.kind = "map"
 SameMap(items, f) == IsMapping(items) /\ AsFun(items) = f
 Override(base, plain) == [k \in DOMAIN base \cup DOMAIN plain |-> IF k \in DOMAIN plain THEN plain[k] ELSE base[k]]
 
-UlistLaw(fn, u, x) == CASE fn \in {"add", "or"} -> Union(u, x)
-                        [] fn = "sub" -> Diff(u, x)
-                        [] fn = "and" -> Inter(u, x)
+\* --- sessions: the specification keeps what the caller's objects hold (cur) and judges every step against it -------------
+RECURSIVE JudgeU(_, _, _, _)
+JudgeU(cur, hist, obs, i) ==
+    IF i > Len(hist) THEN ""
+    ELSE LET k == hist[i][1]  a == hist[i][2]  s == obs[i] IN
+         IF k = "call" THEN
+              LET law == CallU(cur, a)
+                  name == IF a[1] = "op" THEN a[2] ELSE IF a[1] = "rop" THEN "right_" \o a[2] ELSE "in"
+                  arg  == IF a[1] = "op" THEN (IF a[3][1] = "list" THEN a[3][2] ELSE <<>>) ELSE IF a[1] = "rop" THEN a[3] ELSE <<>> IN
+              IF s.exc # "" THEN "ses_ulist_raised"
+              ELSE IF ~SeqPyEq(s.out, law) THEN "ses_ulist_" \o name
+              ELSE IF a[1] # "in" /\ ~IsUSeq(s.out) THEN "ulist_has_duplicates"
+              ELSE IF a[1] # "in" /\ ~s.is_ulist THEN "not_a_ulist"
+              ELSE IF s.u # cur THEN "ulist_modified"
+              ELSE IF s.x_after # arg THEN "operand_modified"
+              ELSE JudgeU(cur, hist, obs, i + 1)
+         ELSE IF k = "edit" THEN
+              IF ~OwnerKeepsUnique(cur, a) \/ s.u # EditL(cur, a) THEN "bad_input" ELSE JudgeU(EditL(cur, a), hist, obs, i + 1)
+         ELSE IF k = "redit" THEN
+              IF i = 1 \/ hist[i - 1][1] # "call" THEN "bad_input"
+              ELSE IF s.u # cur THEN "result_aliases_ulist" ELSE JudgeU(cur, hist, obs, i + 1)
+         ELSE "bad_input"
+
+RECURSIVE JudgeM(_, _, _, _, _)
+JudgeM(cur, cls, hist, obs, i) ==
+    IF i > Len(hist) THEN ""
+    ELSE LET k == hist[i][1]  a == hist[i][2]  s == obs[i] IN
+         IF k = "call" THEN
+              IF ~(a[2] \in {"d", "e"} /\ IsMapping(cur.d) /\ IsMapping(cur.e) /\ IsMapping(cur.O) /\ IsMapping(cur.M) /\ CallMOk(cur, a)) THEN "bad_input"
+              ELSE LET law == CallM(cur, cls, a)  out == s.out  nm == "ses_" \o a[1] IN
+              IF law[1] = "exc" /\ ~(out.kind = "exc" /\ out.cls = law[2]) THEN nm \o "_absent_key"
+              ELSE IF law[1] # "exc" /\ out.kind = "exc" THEN nm \o "_raised"
+              ELSE IF law[1] = "map" /\ ~(out.kind = "map" /\ SameMap(out.items, law[2])) THEN nm \o "_keys_values"
+              ELSE IF law[1] = "list" /\ ~(out.kind = "list" /\ out.items = law[2]) THEN nm \o "_values"
+              ELSE IF law[1] = "map" /\ out.cls # cls[a[2]] THEN "class_not_preserved"
+              ELSE IF law[1] = "map" /\ ~out.is_new THEN "not_a_new_mapping"
+              ELSE IF s.after[a[2]] # cur[a[2]] THEN "d_modified"
+              ELSE IF s.after # cur THEN "argument_changed"
+              ELSE JudgeM(cur, cls, hist, obs, i + 1)
+         ELSE IF k = "edit" THEN
+              IF ~EditMOk(cur, a) \/ s.after # EditM(cur, a) THEN "bad_input" ELSE JudgeM(EditM(cur, a), cls, hist, obs, i + 1)
+         ELSE IF k = "redit" THEN
+              IF i = 1 \/ hist[i - 1][1] # "call" THEN "bad_input"
+              ELSE IF s.after # cur THEN "result_aliases_operand" ELSE JudgeM(cur, cls, hist, obs, i + 1)
+         ELSE "bad_input"
 
 Verdict(o) ==
-    CASE o.op = "ulist_new" ->
+    CASE o.op = "useq" -> IF Len(o.obs) # Len(o.hist) \/ ~IsUSeq(o.init) THEN "bad_input" ELSE JudgeU(o.init, o.hist, o.obs, 1)
+      [] o.op = "mses" -> IF Len(o.obs) # Len(o.hist) THEN "bad_input" ELSE JudgeM(o.init, o.cls, o.hist, o.obs, 1)
+      [] o.op = "ulist_new" ->
             IF o.exc # "" THEN "ulist_raised"
             ELSE IF ~IsUSeq(o.out) THEN "ulist_has_duplicates"
             ELSE IF ~SeqPyEq(o.out, Dedup(o.raw)) THEN "ulist_first_occurrence_order"
@@ -72,7 +121,7 @@ Verdict(o) ==
             LET d == o.d.items  other == o.o.items IN
             IF ~(IsMapping(d) /\ IsMapping(other)) THEN "bad_input"
             ELSE IF ~IsMap(o.out) THEN o.op \o "_raised"
-            ELSE IF ~SameMap(o.out.items, Plus(d, other)) THEN o.op \o "_keys_values"
+            ELSE IF ~SameMap(o.out.items, IF o.op = "plus" THEN PlusOn(o.d.cls, d, other) ELSE Plus(d, other)) THEN o.op \o "_keys_values"
             ELSE IF o.out.cls # o.d.cls THEN "class_not_preserved"
             ELSE IF ~o.out.is_new THEN "not_a_new_mapping"
             ELSE IF o.o_after # other THEN "other_modified"
